@@ -805,6 +805,9 @@ class Samples(object):
         # Get variable names from geometry
         variables = np.array(self.geometry.variables) #Convert to np array for better slicing
         variables = variables.flatten()
+        if len(variables) != self.samples.shape[0]:
+            raise ValueError("compute_rhat needs one variable name per stored row: samples stored in a representation "
+                             "whose number of rows differs from the number of variables of the geometry are not supported.")
 
         # Construct full samples for all chains
         samples = np.empty((self.samples.shape[0], n_chains+1, self.samples.shape[1]))
